@@ -32,7 +32,7 @@ def oracle(p):
                     (op[0] == 'IncrementWindow' and name == 'ValueError' and not 1 <= op[1] <= 2**31 - 1) or
                     (op[0] == 'Ping' and name == 'ValueError' and len(bytes(op[1])) != 8) or
                     (op[0] == 'Acknowledge' and name == 'ValueError' and (op[2] <= 0 or op[1] < 0)) or
-                    (op[0] == 'AdvertiseAltSvc' and name == 'ValueError' and op[2] is not None and op[3] is not None))
+                    (op[0] == 'AdvertiseAltSvc' and name == 'ValueError' and (op[2] is None) == (op[3] is None)))     # both or neither (fix c0a4c40)
                 if not documented:
                     rule = 'a public call raised an undocumented non-h2 exception'
                     if op[0] == 'CloseConnection' and name == 'AssertionError':
@@ -68,7 +68,7 @@ def oracle(p):
 
 
 def finding_of(v):
-    return {R_ASSERT_OUT: 'F-C29-1', R_PRIO0: 'F-C29-2', R_ALTSVC: 'F-C29-3', R_HDR_PRIO: 'F-C29-4'}.get(v['rule'])
+    return {R_ASSERT_OUT: 'F-C29-1', R_PRIO0: 'F-C29-2', R_HDR_PRIO: 'F-C29-4'}.get(v['rule'])     # R_ALTSVC (was F-C29-3) is fixed by c0a4c40
 
 
 def scenarios(run):
